@@ -35,6 +35,17 @@ def features(case, obs):
         f["open_runs_at_inj"] = obs.injected[0]["open_runs"]
         f["state_at_inj"] = obs.injected[0]["state"]
     f["decisions"] = ">".join(s["do"] for s in case.get("stages", [])[1:])
+    # a foreign-thread abort/stop/halt whose coroutine ran when the engine had meanwhile become
+    # paused (the caller sampled "not paused" before): visible as paused->X inside a call/resume stage
+    hit = False
+    stages = case.get("stages", [])
+    for (new, old, hi), meta in zip(obs.states, obs.state_meta):
+        if old == "paused" and new in ("aborting", "stopping", "halting"):
+            si = meta["seg"]
+            if 0 <= si < len(stages) and stages[si]["do"] in ("call", "resume"):
+                hit = True
+    f["foreign_terminator_hit_paused"] = hit
+    f["suspend_requested"] = any(i["inj"]["do"] == "suspend" for i in obs.injected)
     return f
 
 
